@@ -136,6 +136,11 @@ def M3.compose (self other : M3 α) : M3 α :=
   ⟨composeRow3 self.r0 other, composeRow3 self.r1 other, composeRow3 self.r2 other⟩
 def M3.andThen (self other : M3 α) : M3 α := other.compose self
 
+/-- A product of any length built with `then`: `c₁.then(c₂)…then(cₙ)` (apply `c₁` first). -/
+def M4.chain : List (M4 α) → M4 α
+  | [] => M4.identity
+  | m :: ms => ms.foldl (fun acc c => acc.andThen c) m
+
 /-! ### apply (mat.rs:199-247, 379-402) -/
 
 /-- mat.rs:211 `Mat3x3::apply(&Vec2)`: `[x, y, 1.0]` (`// TODO w=0.0`), rows 0 and 1. -/
@@ -159,6 +164,10 @@ def M4.applyPt (m : M4 α) (p : V3 α) : V3 α :=
 def M4.applyProj (m : M4 α) (p : V3 α) : V4 α :=
   let h : V4 α := ⟨p.x, p.y, p.z, 1⟩
   ⟨dot4 m.r0 h, dot4 m.r1 h, dot4 m.r2 h, dot4 m.r3 h⟩
+
+/-- Applying the parts of a chain one after the other. -/
+def applyPtSeq (ms : List (M4 α)) (p : V3 α) : V3 α := ms.foldl (fun q c => c.applyPt q) p
+def applySeq (ms : List (M4 α)) (v : V3 α) : V3 α := ms.foldl (fun q c => c.apply q) v
 
 /-- The linear part of a 4×4 applied to a vector (what the property text asks of `apply`
 on vectors); *not* what the code computes when the translation column is non-zero. -/
